@@ -5,6 +5,8 @@
 use vstd::prelude::*;
 use vstd::arithmetic::mul::*;
 use std::rc::Rc;
+macro_rules! html_trace { ($($t:tt)*) => {} }
+macro_rules! html_trace_quiet { ($($t:tt)*) => {} }
 verus! {
 //@export-begin
 //@import NC
